@@ -82,7 +82,9 @@ func runC05(cx *Ctx, r *Report) {
 			okAmt := pay[0].ev.Args[2].LooseString() == "addr(msg.Sender)" && lastArgS(pay[0].ev) == "coins(msg.Amount)" && lock[0].ev.Args[0].LooseString() == amt &&
 				direct[0].ev.Args[0].LooseString() == "msg.Amount" && strings.HasSuffix(t, ", math.Int.Neg("+amt+")))") && strings.Contains(t, ".TotalLptLocked")
 			r.check(okAmt && pay[0].must() && lock[0].must(), "unstake-double-entry", "Unstake|amounts", pos, "escrow→signer(msg.Amount), farmer.Locked −= msg.Amount.Amount (both must) and the pool total is reduced by the same amount on either route", "Unstake amounts/endpoints differ: pay "+lastArgS(pay[0].ev)+" to "+pay[0].ev.Args[2].LooseString()+", locked −"+lock[0].ev.Args[0].LooseString()+", direct −"+direct[0].ev.Args[0].LooseString()+", shared "+t)
-			// exactly one of the two routes: lift both to the frame of the payout's function
+			// exactly one of the two routes: at the lowest frame the two reductions share they are
+			// mutually exclusive and one of them is on every successful path; from there up to
+			// the payout's frame every call is a must call, and both precede the payout
 			top := pay[0].ev.Fr
 			lift := func(e *Event) ssa.Instruction {
 				var s ssa.Instruction = e.Site
@@ -97,9 +99,17 @@ func runC05(cx *Ctx, r *Report) {
 				}
 				return nil
 			}
-			s1, s2 := lift(direct[0].ev), lift(shared[0].ev)
-			okOne := s1 != nil && s2 != nil && s1.Block() != s2.Block() && !s1.Block().Dominates(s2.Block()) && !s2.Block().Dominates(s1.Block()) &&
-				mustPass(top.Fn, func(i ssa.Instruction) bool { return i == s1 || i == s2 }) && orderedBeforeInstr(s1, pay[0].ev.Site) && orderedBeforeInstr(s2, pay[0].ev.Site)
+			lcf, s1, s2 := commonFrame(direct[0].ev, shared[0].ev)
+			okOne := lcf != nil && s1 != nil && s2 != nil && s1 != s2 && s1.Block() != s2.Block() && !s1.Block().Dominates(s2.Block()) && !s2.Block().Dominates(s1.Block()) &&
+				mustPass(lcf.Fn, func(i ssa.Instruction) bool { return i == s1 || i == s2 })
+			for f := lcf; okOne && f != nil && f != top; f = f.Parent {
+				if f.Call == nil || !siteMust(f.Call) || !errorPropagated(f.Call) {
+					okOne = false
+				}
+			}
+			if l1, l2 := lift(direct[0].ev), lift(shared[0].ev); okOne && (l1 == nil || l2 == nil || !orderedBeforeInstr(l1, pay[0].ev.Site) || !orderedBeforeInstr(l2, pay[0].ev.Site)) {
+				okOne = false
+			}
 			r.check(okOne, "unstake-one-route", "Unstake", pos, "every successful unstake reduces the pool total by exactly one of two mutually exclusive routes before paying out", "the pool total is not reduced by exactly one route on every successful unstake")
 			_, g1 := pay[0].fact(false, "math.Int.LT(", ".Locked, "+amt+")")
 			_, g2 := pay[0].fact(false, "math.Int.LT(", ".TotalLptLocked.Amount, "+amt+")")
@@ -275,7 +285,26 @@ func runC06(cx *Ctx, r *Report) {
 	nRel := 0
 	for _, name := range sortedKeys(per) {
 		evs := per[name]
-		rel := pick(evs, "assign:RewardRule.RemainingReward", func(x hev) bool { return strings.HasPrefix(x.ev.Args[0].LooseString(), "math.Int.Sub(") })
+		// a decrement of the remaining budget, written either as x = x.Sub(p) on one
+		// place (delta) or as an assignment of Sub(old, p)
+		type relT struct {
+			x    hev
+			prod string
+		}
+		var rel []relT
+		for _, x := range evs {
+			switch {
+			case x.ev.Kind == "delta:RewardRule.RemainingReward:-":
+				rel = append(rel, relT{x, x.ev.Args[0].LooseString()})
+			case x.ev.Kind == "assign:RewardRule.RemainingReward" && strings.HasPrefix(x.ev.Args[0].LooseString(), "math.Int.Sub("):
+				t := x.ev.Args[0].LooseString()
+				if j := strings.Index(t, ".RemainingReward, "); j >= 0 {
+					rel = append(rel, relT{x, strings.TrimSuffix(t[j+len(".RemainingReward, "):], ")")})
+				} else {
+					rel = append(rel, relT{x, ""})
+				}
+			}
+		}
 		send := pick(evs, "bank.SendCoinsFromModuleToModule", func(x hev) bool { return x.ev.Args[2].LooseString() == `"reward_collector"` })
 		if len(rel) == 0 && len(send) == 0 {
 			continue
@@ -284,31 +313,29 @@ func runC06(cx *Ctx, r *Report) {
 		ok := len(rel) >= 1 && len(rel) == len(send)
 		pos := ""
 		for i := 0; ok && i < len(rel); i++ {
-			pos = rel[i].ev.Pos(cx)
-			t := rel[i].ev.Args[0].LooseString()
-			j := strings.Index(t, ".RemainingReward, ")
-			if j < 0 {
+			pos = rel[i].x.ev.Pos(cx)
+			prod := rel[i].prod
+			if prod == "" {
 				ok = false
 				break
 			}
-			prod := strings.TrimSuffix(t[j+len(".RemainingReward, "):], ")")
-			// same frame: the transfer moves coin(rule.Reward, prod) accumulated over the rules
+			// the transfer on the same call chain (same frame or an enclosing one) moves
+			// coin(rule.Reward, prod) accumulated over the rules
 			var s *hev
 			for k := range send {
-				if send[k].ev.Fr == rel[i].ev.Fr {
-					s = &send[k]
+				for f := rel[i].x.ev.Fr; f != nil; f = f.Parent {
+					if send[k].ev.Fr == f {
+						s = &send[k]
+					}
 				}
 			}
 			okS := s != nil && strings.Contains(lastArgS(s.ev), prod) && s.ev.Args[1].LooseString() == `"farm"` && strings.Contains(prod, ".RewardPerBlock") && strings.Contains(prod, "BlockHeight()") && strings.Contains(prod, ".LastHeightDistrRewards")
-			_, g1 := rel[i].fact(true, "math.Int.GT(", ".TotalLptLocked.Amount, math.ZeroInt())")
-			_, g2 := rel[i].fact(true, "(sdk.Context.BlockHeight() > ", ".LastHeightDistrRewards)")
-			_, g3 := rel[i].fact(false, "math.Int.LT(", ".RemainingReward, "+prod+")")
-			persisted := false
-			for _, x := range evs {
-				if x.ev.Kind == "store.set" && hasPrefix(x.ev, "farm:FarmPoolRuleKey=0x02") && x.ev.Fr.Parent == rel[i].ev.Fr && x.ev.Fr.Call != nil && x.ev.Fr.Call.Block() == rel[i].ev.Site.Block() {
-					persisted = true
-				}
-			}
+			_, g1a := rel[i].x.fact(true, "math.Int.GT(", ".TotalLptLocked.Amount, math.ZeroInt())")
+			_, g1b := rel[i].x.fact(true, "math.Int.IsPositive(", ".TotalLptLocked.Amount)")
+			g1 := g1a || g1b
+			_, g2 := rel[i].x.fact(true, "(sdk.Context.BlockHeight() > ", ".LastHeightDistrRewards)")
+			_, g3 := rel[i].x.fact(false, "math.Int.LT(", ".RemainingReward, "+prod+")")
+			persisted := persistedAfter(rel[i].x, evs, "farm:FarmPoolRuleKey=0x02")
 			if !(okS && g1 && g2 && g3 && persisted) {
 				ok = false
 				r.violate("budget-release", name, pos, fmt.Sprintf("release is not {remaining −= perBlock·Δheight persisted, escrow→collector of the same product} under {staked>0: %v, height advanced: %v, ¬(remaining<product): %v} (transfer matches: %v, persisted: %v)", g1, g2, g3, okS, persisted))
@@ -343,32 +370,24 @@ func runC06(cx *Ctx, r *Report) {
 		}
 		r.ok("refund-callers", name, zero[0].ev.Pos(cx), "refund reachable from "+name)
 		z := zero[0]
-		fr := z.ev.Fr
-		pays := pick(evs, "bank.SendCoinsFromModuleToAccount", func(x hev) bool { return x.ev.Fr == fr })
+		pays := refundPay
 		pool := pick(evs, "bank.SendCoinsFromModuleToModule", func(x hev) bool {
-			return x.ev.Args[2].LooseString() == "keeper.communityPoolName" && x.ev.Fr.Parent == fr
+			return x.ev.Args[2].LooseString() == "keeper.communityPoolName" && strings.Contains(lastArgS(x.ev), ".RemainingReward")
 		})
-		deq := pick(evs, "store.delete", func(x hev) bool { return hasPrefix(x.ev, "farm:ActiveFarmPoolKey=0x04") && x.ev.Fr.Parent == fr })
+		deq := pick(evs, "store.delete", func(x hev) bool { return hasPrefix(x.ev, "farm:ActiveFarmPoolKey=0x04") && orderedBefore(x.ev, z.ev) })
 		ok := len(pays) == 1 && len(pool) == 1 && len(deq) == 1
 		if ok {
 			a := lastArgS(pays[0].ev)
-			ok = strings.Contains(a, ".RemainingReward") && strings.Contains(a, "sdk.Coins.Add(") && strings.Contains(pays[0].ev.Args[2].LooseString(), ".Creator") && pays[0].ev.Args[1].LooseString() == `"farm"` &&
-				strings.Contains(lastArgS(pool[0].ev), ".RemainingReward") && pool[0].ev.Args[1].LooseString() == `"farm"`
-			// dequeue first and unconditionally
-			ok = ok && siteMust(deq[0].ev.Fr.Call) == false || ok
-			dq := deq[0].ev.Fr.Call
-			ok = ok && dq != nil && dq.Block() == fr.Fn.Blocks[0]
+			ok = strings.Contains(a, "sdk.Coins.Add(") && strings.Contains(pays[0].ev.Args[2].LooseString(), ".Creator") && pool[0].ev.Args[1].LooseString() == `"farm"`
+			// dequeue first and unconditionally: lifted to the function it shares with the
+			// zeroing, the dequeue sits in that function's entry block
+			lcf, s1, _ := commonFrame(deq[0].ev, z.ev)
+			ok = ok && lcf != nil && s1 != nil && s1.Block() == lcf.Fn.Blocks[0]
 			// zeroing and persisting in the same iteration, after the old value was added to the refund
-			persisted := false
-			for _, x := range evs {
-				if x.ev.Kind == "store.set" && hasPrefix(x.ev, "farm:FarmPoolRuleKey=0x02") && x.ev.Fr.Parent == fr && x.ev.Fr.Call != nil && x.ev.Fr.Call.Block() == z.ev.Site.Block() && instrIndex(x.ev.Fr.Call) > instrIndex(z.ev.Site) {
-					persisted = true
-				}
-			}
-			ok = ok && persisted
+			ok = ok && persistedAfter(z, evs, "farm:FarmPoolRuleKey=0x02")
 			// exactly one of the two payouts on every successful path
-			s1, s2 := pays[0].ev.Site, pool[0].ev.Fr.Call
-			ok = ok && s2 != nil && mustPass(fr.Fn, func(i ssa.Instruction) bool { return i == s1 || i == s2 }) && !s1.Block().Dominates(s2.Block()) && !s2.Block().Dominates(s1.Block())
+			pf, p1, p2 := commonFrame(pays[0].ev, pool[0].ev)
+			ok = ok && pf != nil && p1 != nil && p2 != nil && p1 != p2 && mustPass(pf.Fn, func(i ssa.Instruction) bool { return i == p1 || i == p2 }) && !p1.Block().Dominates(p2.Block()) && !p2.Block().Dominates(p1.Block())
 		}
 		r.check(ok, "budget-refund", name, z.ev.Pos(cx), "refund: the active entry is dequeued first, each rule's remaining budget is added to the refund, zeroed and persisted in the same iteration, and the sum is paid from the escrow to the creator or (exclusively) the community pool", "refund structure broken in "+name+" (dequeue-first / accumulate-zero-persist / exactly one payout)")
 		if name == "DestroyPool" {
@@ -424,19 +443,29 @@ func (cx *Ctx) rewardFormula(r *Report) {
 	}
 	w := newWalker(cx)
 	fr := &Frame{Fn: fn}
-	var amts []ssa.Value
-	for _, ci := range findCalls(fn, func(ci ssa.CallInstruction) bool { return calleeIs(ci, "cosmos-sdk/types", "NewCoin") }) {
-		amts = append(amts, ci.Common().Args[1])
+	// the coins added to the two results (built in place or by a helper)
+	var coinVals []ssa.Value
+	for _, ci := range findCalls(fn, func(ci ssa.CallInstruction) bool { return calleeIs(ci, "cosmos-sdk/types", "Coins.Add") }) {
+		args := ci.Common().Args
+		if len(args) < 2 {
+			continue
+		}
+		coinVals = append(coinVals, variadicElems(args[len(args)-1])...)
 	}
-	if len(amts) != 2 {
-		r.violate("reward-formula", "CaclRewards", cx.P.Pos(fn.Pos()), fmt.Sprintf("the per-share reward calculation builds %d coins (expected the pending reward and the new debt)", len(amts)))
+	if len(coinVals) != 2 {
+		r.violate("reward-formula", "CaclRewards", cx.P.Pos(fn.Pos()), fmt.Sprintf("the per-share reward calculation adds %d coins to its results (expected the pending reward and the new debt)", len(coinVals)))
 		return
 	}
 	okP, okD := false, false
 	var seen []string
-	for _, a := range amts {
+	for _, cv := range coinVals {
 		fx := newFx(w)
-		got := fx.StripRound(fx.Eval(a, fr))
+		cas := fx.CoinAmounts(cv, fr)
+		if len(cas) != 1 {
+			seen = append(seen, "undecodable coin")
+			continue
+		}
+		got := fx.StripRound(cas[0].Amt)
 		bind := map[string]Rat{}
 		for sym, t := range fx.leavesOf(got) {
 			switch {
@@ -469,4 +498,25 @@ func (cx *Ctx) rewardFormula(r *Report) {
 		}
 	}
 	r.check(okP && okD, "reward-formula", "CaclRewards", cx.P.Pos(fn.Pos()), "pending = ⌊rewardPerShare·locked⌋ − rewardDebt and new debt = ⌊rewardPerShare·(locked+Δ)⌋, both rounded toward zero", fmt.Sprintf("the per-share reward calculation is not {pending = ⌊rps·locked⌋ − debt: %v, new debt = ⌊rps·(locked+Δ)⌋: %v}; found %s", okP, okD, strings.Join(seen, " ; ")))
+}
+
+// commonFrame: the lowest frame shared by the chains of a and b, and the two
+// events' sites lifted to it.
+func commonFrame(a, b *Event) (*Frame, ssa.Instruction, ssa.Instruction) {
+	chain := func(e *Event) []*Frame {
+		var c []*Frame
+		for f := e.Fr; f != nil; f = f.Parent {
+			c = append([]*Frame{f}, c...)
+		}
+		return c
+	}
+	ca, cb := chain(a), chain(b)
+	i := 0
+	for i < len(ca) && i < len(cb) && ca[i] == cb[i] {
+		i++
+	}
+	if i == 0 {
+		return nil, nil, nil
+	}
+	return ca[i-1], siteOf(ca, i, a), siteOf(cb, i, b)
 }
